@@ -38,6 +38,13 @@ func (w *world) apply(op kernel.Op) {
 				w.pairEnabled[strings.ToLower(p.ERC20Address)] = p.Enabled
 			}
 		})
+	case "liemode":
+		// the false-returning token changes its behaviour (0 honest, 1 returns false and moves nothing, 2 moves and returns false)
+		mode := kernel.Mod(op.Arg(0), 3)
+		liar := w.ext[4]
+		data, _ := liarABI.Pack("setMode", big.NewInt(int64(mode)))
+		w.mempool = append(w.mempool, &intent{kind: "liemode", signer: w.gov, eth: true, to: &liar, data: data, desc: fmt.Sprintf("liar token mode %d", mode)})
+		w.rec.Fault(fmt.Sprintf("exec.token_misbehave.mode%d", mode))
 	case "regcoin2":
 		// two registrations of one denomination in the same voting window, with different metadata
 		d := baseDenoms[kernel.Mod(op.Arg(0), len(baseDenoms))]
